@@ -37,7 +37,7 @@ def _models(c, fp, results):
 
     def run(job):
         name, cfg, must = job
-        return name, must, vf.tlc_check("ElfHash.tla", cfg, workers=4, timeout=1400, heap="3g", extra=("-noGenerateSpecTE",))
+        return name, must, vf.tlc_check("ElfHash.tla", cfg, workers=4, timeout=1400, heap="3g")
     for name, must, r in vf.pmap(run, jobs + strict, jobs=5):
         results.append((name, must, r))
 
